@@ -113,7 +113,13 @@ def run_shard(spec, res):
             cand = [(i, n) for i, n in enumerate(counts) if n > 0 and steps[i]["op"] not in ("add", "simplify", "downsize", "branch")]
             rng.shuffle(cand)
             for i, n in cand[: 3 if spec["tier"] == "quick" else 6]:
-                for k in range(1, n + 1):
+                # every position when the step makes few checks; the first, last and a sample of the middle ones when it
+                # makes many (complete enumerations by a solver without caches make one check per value)
+                cap = 8 if spec["tier"] == "quick" else 20
+                ks = list(range(1, n + 1)) if n <= cap else sorted({1, 2, 3, n - 1, n, *rng.sample(range(4, n - 1), cap - 5)})
+                if n > cap:
+                    res.count("steps_with_sampled_check_positions")
+                for k in ks:
                     for mode in ("raise", "rlimit"):
                         one_fault(res, al, steps, i, k, mode, cls, cfg, inj, keep)
             del keep[:]
